@@ -21,7 +21,7 @@ MANIFEST = {
 }
 
 BOUNDS = {"quick": {"vertices": 3, "links": "2-3"}, "thorough": {"vertices": "3-4", "links": "3-4"}}
-TIME_BUDGET = {"quick": 400, "thorough": 3000}
+TIME_BUDGET = {"quick": 400, "thorough": 1200}
 STUBS = ["ff_via -> uninterpreted ff(link, vertex): Bool", "ff_result -> uninterpreted fr(vertex): Bool",
          "collections.deque -> list-backed model"]
 ASSUMPTIONS = [
